@@ -39,12 +39,15 @@ public:
 
     Ptr& operator=(const Ptr& other)
     {
-      if(other.refObj)
-        Atomic::increment(other.refObj->ref);
+      // other may be a member of the object this handle releases: read it first
+      Object* otherRefObj = other.refObj;
+      C* otherObj = other.obj;
+      if(otherRefObj)
+        Atomic::increment(otherRefObj->ref);
       if(refObj && Atomic::decrement(refObj->ref) == 0)
         delete refObj;
-      refObj = other.refObj;
-      obj = other.obj;
+      refObj = otherRefObj;
+      obj = otherObj;
       return *this;
     }
 
@@ -62,12 +65,15 @@ public:
 
     template <class D> Ptr& operator=(const Ptr<D>& other)
     {
-      if(other.refObj)
-        Atomic::increment(other.refObj->ref);
+      // other may be a member of the object this handle releases: read it first
+      Object* otherRefObj = other.refObj;
+      C* otherObj = other.obj;
+      if(otherRefObj)
+        Atomic::increment(otherRefObj->ref);
       if(refObj && Atomic::decrement(refObj->ref) == 0)
         delete refObj;
-      refObj = other.refObj;
-      obj = other.obj;
+      refObj = otherRefObj;
+      obj = otherObj;
       return *this;
     }
 
